@@ -249,3 +249,95 @@ func (c *fnCtx) slicePermutation(v *ast.AssignStmt) {
 		}
 	}
 }
+
+// ---------------------------------------------------------------- read-only pointer parameters
+
+// readOnlyPtrParams: a parameter x *T, T a struct of the file that is changed elsewhere (so *T is
+// not a value), of which this function only READS scalar fields (x.f; x itself is never assigned,
+// compared, handed on, and no field is written or has its address taken): one argument x_f per
+// field read, in struct order -- like the fields of the receiver.  Returns false when f is no such
+// parameter (the ordinary rules apply).
+func (c *fnCtx) readOnlyPtrParams(f *ast.Field) bool {
+	st, ok := f.Type.(*ast.StarExpr)
+	if !ok {
+		return false
+	}
+	base, _ := baseAndArgs(st.X)
+	id, ok := base.(*ast.Ident)
+	if !ok {
+		return false
+	}
+	ts := c.g.structs[id.Name]
+	if ts == nil || ts.TypeParams != nil {
+		return false
+	}
+	if ok, _ := c.immutableStruct(ts); ok {
+		return false // a pointer to an immutable struct is a value (option)
+	}
+	names, types := structFields(ts.Type.(*ast.StructType))
+	for _, n := range f.Names {
+		if n.Obj == nil || n.Name == "_" {
+			c.lostAt(f, "blank pointer parameter")
+		}
+		read := map[string]bool{}
+		okUse := map[*ast.Ident]bool{}
+		ast.Inspect(c.fn.decl.Body, func(x ast.Node) bool {
+			switch v := x.(type) {
+			case *ast.AssignStmt:
+				for _, l := range v.Lhs {
+					if b := baseIdent(l); b != nil && b.Obj == n.Obj {
+						c.lostAt(v, "pointer parameter %s: assignment through it or to it (only reads of scalar fields)", n.Name)
+					}
+				}
+			case *ast.IncDecStmt:
+				if b := baseIdent(v.X); b != nil && b.Obj == n.Obj {
+					c.lostAt(v, "pointer parameter %s: assignment through it (only reads of scalar fields)", n.Name)
+				}
+			case *ast.UnaryExpr:
+				if v.Op == token.AND {
+					if b := baseIdent(v.X); b != nil && b.Obj == n.Obj {
+						c.lostAt(v, "pointer parameter %s: address of a field", n.Name)
+					}
+				}
+			case *ast.SelectorExpr:
+				if xid, isId := v.X.(*ast.Ident); isId && xid.Obj == n.Obj {
+					okUse[xid] = true
+					read[v.Sel.Name] = true
+				}
+			}
+			return true
+		})
+		ast.Inspect(c.fn.decl.Body, func(x ast.Node) bool {
+			if xid, isId := x.(*ast.Ident); isId && xid.Obj == n.Obj && !okUse[xid] {
+				c.lostAt(xid, "pointer parameter %s used as a value (only reads of its scalar fields)", n.Name)
+			}
+			return true
+		})
+		p := &fnParam{goName: n.Name}
+		if c.ptrFields == nil {
+			c.ptrFields = map[*ast.Object]map[string]*fnVar{}
+		}
+		c.ptrFields[n.Obj] = map[string]*fnVar{}
+		for _, fname := range names {
+			if !read[fname] {
+				continue
+			}
+			ft := c.goType(types[fname])
+			switch ft.k {
+			case "int", "byte", "bool", "string", "u64":
+			default:
+				c.lostAt(f, "pointer parameter %s: field %s of type %s is read (only scalar fields)", n.Name, fname, src(types[fname]))
+			}
+			v := c.newVar(n.Name+"_"+fname, ft, "param")
+			c.ptrFields[n.Obj][fname] = v
+			p.ptrFields = append(p.ptrFields, fname)
+			p.ptrVars = append(p.ptrVars, v)
+			delete(read, fname)
+		}
+		for fname := range read {
+			c.lostAt(f, "pointer parameter %s: %s is not a field of %s", n.Name, fname, id.Name)
+		}
+		c.fn.params = append(c.fn.params, p)
+	}
+	return true
+}
